@@ -91,17 +91,28 @@ def f64(bs):
     import struct
     return struct.unpack('<d', bytes(bs))[0]
 
-def playback_native(name, features=()):
-    """generate the concrete-playback unit test in place and run it natively (dev profile): returns (reproduced, output).
-    The harness source is restored afterwards."""
-    import shutil, glob
-    srcs = glob.glob(os.path.join(KDIR, 'src', '*.rs')); backup = {p: open(p).read() for p in srcs}
+def playback_native(name, features=(), values=None):
+    """replay a Kani counterexample natively: a unit test feeding the concrete kani::any() values to the harness function is appended to the
+    harness module, run with `cargo kani playback` (the crate under test is the native build, dev profile), and removed again.
+    Returns (reproduced, output)."""
+    import glob
+    if values is None:
+        r = run_one(name, 3600, features, playback=True); values = r.get('values')
+    if not values: return False, 'no concrete values'
+    src = None
+    for pth in glob.glob(os.path.join(KDIR, 'src', '*.rs')):
+        if re.search(r'\b' + re.escape(name) + r'\b', open(pth).read()): src = pth; break
+    if src is None: return False, 'harness source not found'
+    backup = open(src).read()
+    vals = ', '.join('vec![' + ', '.join(str(b) for b in v) + ']' for v in values)
+    test = f"\n#[test]\nfn kani_concrete_playback_verif() {{\n    let concrete_vals: Vec<Vec<u8>> = vec![{vals}];\n    kani::concrete_playback_run(concrete_vals, {name});\n}}\n"
     try:
-        cmd = ['cargo', 'kani', '-Z', 'stubbing', '--harness', name, '-Z', 'concrete-playback', '--concrete-playback=inplace'] + (['--features', ','.join(features)] if features else [])
-        subprocess.run(cmd, cwd=KDIR, env=build.cargo_env(), capture_output=True, text=True, timeout=3600, preexec_fn=_limits)
-        cmd = ['cargo', 'kani', 'playback', '-Z', 'concrete-playback'] + (['--features', ','.join(features)] if features else []) + ['--', 'kani_concrete_playback']
+        open(src, 'w').write(backup + test)
+        cmd = ['cargo', 'kani', 'playback', '-Z', 'concrete-playback'] + (['--features', ','.join(features)] if features else []) + ['--', 'kani_concrete_playback_verif']
         p = subprocess.run(cmd, cwd=KDIR, env=build.cargo_env(), capture_output=True, text=True, timeout=1800)
         out = p.stdout + p.stderr
-        return ('FAILED' in out or 'panicked' in out), out
+        ran = 'running 1 test' in out or 'test result' in out
+        return (ran and ('FAILED' in out or 'panicked' in out or 'test failed' in out)), out
     finally:
-        for pth, txt in backup.items(): open(pth, 'w').write(txt)
+        open(src, 'w').write(backup)
+
